@@ -10,7 +10,7 @@ from common import (VERIF, COQ, log, translate, make, failed_files, compile_prop
 
 TRUSTED_BASE = [
     "Coq 8.16.1 kernel and its VM (vm_compute); no native_compute",
-    "translators: translate/py2v.py (constants, tables, dispatch literals by AST shape), translate/py2v_more.py (scalar functions -> Base/PyVal.v `val` semantics, which is mine: Python float arithmetic read as exact rational arithmetic, comparisons, tuples, raise -> VErr), translate/f902v.py (Fortran parameter constants, declared types, shim bindings, status enum in three languages, status switches of _speedup.c / _speedup.pyx, raise statements of the hazmat modules), translate/f902v_fn.py (twelve scalar Fortran routines -> the same `val` language: expressions with Fortran precedence, if-chains, call with out-arguments, literal-index elements; an out-argument not assigned on a path is None)",
+    "translators: translate/py2v.py (constants, tables, dispatch literals by AST shape), translate/py2v_more.py (scalar functions -> Base/PyVal.v `val` semantics, which is mine: Python float arithmetic read as exact rational arithmetic, comparisons, tuples, raise -> VErr), translate/f902v.py (Fortran parameter constants, declared types, shim bindings, symbolic evaluation of the hard-coded Fortran closed forms of curve / triangle subdivision and of shoelace_for_area to coefficient tables, status enum in three languages, status switches of _speedup.c / _speedup.pyx, raise statements of the hazmat modules), translate/f902v_fn.py (twelve scalar Fortran routines -> the same `val` language: expressions with Fortran precedence, if-chains, call with out-arguments, literal-index elements; an out-argument not assigned on a path is None)",
     "harness correspondence: exact-input generators, float.hex transport, CPython Fraction(float) exactness",
     "speedup built from /repo/src/fortran and _speedup.c with the repository's Release flags except -march=native (TARGET_NATIVE_ARCH=OFF, as the shipped wheel): gfortran -O3, gcc -O2",
     "no Extraction is used (the model is evaluated inside Coq by vm_compute on generated case files; comparison done in Coq, only bad indices printed)",
